@@ -134,6 +134,12 @@ func main() {
 					"DatabaseAPI).handleCancel", "DatabaseAPI).registerSub", "DatabaseAPI).handleQsub", "DatabaseAPI).handleSub", "DatabaseAPI).handleQuery"):
 					rep.Violation("C13:race:"+rr.Signature(), "data race on the API's per-connection state (queries/subs) reported by the race detector",
 						map[string]any{"report": rr.Text, "batch": s})
+				case rr.InScope("database/query."):
+					// the parsed query of a subscription is shared by every writer that
+					// notifies it and by the query executor: it must be safe to evaluate
+					// concurrently
+					rep.Violation("C13:race:query:"+rr.Signature(), "data race inside the query a subscription/query of the API is evaluated with (shared by concurrent writers)",
+						map[string]any{"report": rr.Text, "batch": s})
 				case raceInHandler(rr, "DatabaseAPI).handleInsert", "DatabaseAPI).handlePut", "DatabaseAPI).handleDelete", "DatabaseAPI).handleGet", "api.MarshalRecord"):
 					// a handler of the API touches a record while another handler
 					// changes it: observed to damage replies (a reader gets a cut-off
@@ -600,6 +606,13 @@ func runSequence(e *env, no int, avoid map[string]bool) {
 		saved := s.r
 		s.r = vlib.NewRand(e.spec.Seed, fmt.Sprintf("C13/formatskeys/%d", e.spec.Batch), uint64(no))
 		s.stepFormatsAndKeys()
+		s.r = saved
+		e.jwrite("Q", c.no, nil, "")
+	}
+	if no%4 == 1 && e.spec.Batch%4 == 2 && !e.aborted {
+		saved := s.r
+		s.r = vlib.NewRand(e.spec.Seed, fmt.Sprintf("C13/inlist/%d", e.spec.Batch), uint64(no))
+		s.stepInList()
 		s.r = saved
 		e.jwrite("Q", c.no, nil, "")
 	}
